@@ -295,6 +295,12 @@ func suiteDocument(r *Rng, n int, thorough bool, o *Out) {
 				o.stat("data.errors")
 			}
 		}
+		// errors may also sit on a document that has data and included resources
+		_, otherData := doc.Data.(int)
+		if len(doc.Errors) == 0 && !otherData && r.chance(1, 7) {
+			doc.Errors = genErrors(r)
+			o.stat("data.errors-with-data")
+		}
 		// included through Include (fresh, repeated, and primary-data resources)
 		prim := docResources(doc)
 		var pool []jsonapi.Resource
@@ -365,7 +371,7 @@ func suiteDocument(r *Rng, n int, thorough bool, o *Out) {
 		}
 		if err != nil {
 			pv := "ok"
-			if dataKind != 8 || doc.Data == nil {
+			if _, isInt := doc.Data.(int); !isInt {
 				pv = "FAIL:MarshalDocument failed: " + err.Error()
 			}
 			o.emit(op, "err", pv)
